@@ -311,7 +311,7 @@ pub fn execute(world: &World, plan: &Plan, judgement: &Judgement, scratch: &Path
         .collect();
     let diff_perm = perm_from_seed(plan.diff_seed, diff_files.len());
     let diff_order: Vec<usize> = diff_perm.iter().map(|&i| diff_files[i]).collect();
-    let stdin_text = world.stdin_text(rendered, &diff_order);
+    let stdin_text = world.stdin_text(rendered, &diff_order).map(|t| world.with_noise(t, plan.diff_seed));
 
     // ---- network
     let endpoint = SimEndpoint::new(
